@@ -171,7 +171,7 @@ class Check:
         for o in self.obligations[:3]:
             samples.append({"obligation": o.id, "result": o.result, "solver": o.solver})
         level = self.claimed_level
-        if level == "proof" and not (n_ob > 0 and n_dis == n_ob):
+        if level == "proof" and (not (n_ob > 0 and n_dis == n_ob) or self.violation_lines):
             level = "exploration" if evaluations > 0 and distinct >= 2 else "other"
         for fid, text in self.known_hit.items():
             print(f"KNOWN-FINDING: property={self.prop_id} {text}")
